@@ -115,6 +115,7 @@ func genStream(r *Rng, prop, phase string, knob bool, pEarly, pErr float64) []*S
 	}
 	rs.Ops, rs.Family = genSchedule(r, doc, limit, pts)
 	rs.Scribble = genScribble(r)
+	rs.Rich = r.Chance(0.2)
 	s.Reader = rs
 	if knob {
 		s.Knobs = map[string]int{"chunkSize": chunkKnobs[r.Intn(len(chunkKnobs))]}
@@ -264,6 +265,7 @@ func genEnumK(r *Rng, prop, phase, kind string) []*Scenario {
 		if k%3 == 1 {
 			rs.Scribble = scribbleKinds[(k/3)%len(scribbleKinds)]
 		}
+		rs.Rich = k%4 == 2
 		if kind == "error" {
 			rs.Fault.Err = faultErrKinds[(k+len(doc))%len(faultErrKinds)]
 		}
@@ -848,6 +850,9 @@ func streamStats(s *Scenario, obs *streamObs, st *runStats) (nontrivial bool) {
 	st.Faults["empty_read"] += rd.EmptyReads
 	if rd.Scribbled > 0 {
 		st.Faults["reader_scribbled_unfilled_part_of_p"] += rd.Scribbled
+	}
+	if s.Reader.Rich {
+		st.Probes["reader_offers_WriterTo_ByteReader_Len"]++
 	}
 	if rd.DataWithErr > 0 {
 		if s.Reader.Fault.Kind == "error" {
